@@ -53,6 +53,29 @@ func phiEdgeCanons(v ssa.Value) []string {
 	return uniq(out)
 }
 
+// phiSelfReachable: the phi can take its own previous value through phi-only edges
+// (i.e. some path through the loop body leaves the loop-carried variable unchanged).
+func phiSelfReachable(ph *ssa.Phi) bool {
+	seen := map[*ssa.Phi]bool{}
+	var walk func(x *ssa.Phi) bool
+	walk = func(x *ssa.Phi) bool {
+		if seen[x] {
+			return false
+		}
+		seen[x] = true
+		for _, e := range x.Edges {
+			if e == ph {
+				return true
+			}
+			if q, ok := e.(*ssa.Phi); ok && walk(q) {
+				return true
+			}
+		}
+		return false
+	}
+	return walk(ph)
+}
+
 func c04(p *P) {
 	r := p.r
 	cert := `\$5\[\(phi\(-1\|↻\) \+ 1\)\]`
@@ -65,6 +88,7 @@ func c04(p *P) {
 	r.Rule("C04.R5", "delta application rejects every malformed class before touching the map; fresh map", 16)
 	r.Rule("C04.R6", "MakePowerTableDiff: sorted by participant, no zero deltas", 3)
 	r.Rule("C04.R7", "canonical order: power desc, id asc", 3)
+	p.include(c08, map[string]string{"C08.R1": "C04.R8", "C08.R2": "C04.R8b", "C08.R4": "C04.R8c"}, map[string]string{"C04.R8": "strong-quorum threshold exact", "C04.R8b": "quorum operands from one table", "C04.R8c": "signer weights: exact scaling of the power table in arbitrary precision"})
 
 	// ---------------- R1 / R3
 	if v := p.fn("C04.R1", "certs.ValidateFinalityCertificates"); v != nil {
@@ -122,6 +146,8 @@ func c04(p *P) {
 			sort.Strings(wantBase)
 			r.Check(strings.Join(be, " | ") == strings.Join(wantBase, " | "), "C04.R1", "ValidateFinalityCertificates: next base := head of this certificate's chain", where, strings.Join(be, " | "),
 				"loop-carried base is "+strings.Join(be, " | ")+" — the next certificate would not be checked against the head finalized by its predecessor")
+			r.Check(!phiSelfReachable(basePhi), "C04.R1", "ValidateFinalityCertificates: every accepted certificate replaces the expected base", where, "no path through the loop body keeps the previous base",
+				"some path through the loop body leaves the expected base unchanged (a nil base from the caller stays nil, so the next certificate's linkage is not checked)")
 			pe := phiEdgeCanons(prevPhi)
 			okPrev := len(pe) == 2 && pe[0] == "$2" && strings.HasPrefix(pe[1], "certs.ApplyPowerTableDiffs(phi($2|↻), [") && strings.HasSuffix(pe[1], ".PowerTableDelta])#0")
 			r.Check(okPrev, "C04.R1", "ValidateFinalityCertificates: next table := previous table with this certificate's delta applied", where, strings.Join(pe, " | "), "loop-carried power table is "+strings.Join(pe, " | "))
